@@ -346,7 +346,8 @@ pub fn new_inner_unicode<const LEAD: u8, const TAIL: u8, const CASE: u8, const N
         2 => (b'x', b'\\'),  // trailing backslash
         3 => (b'x', b'y'),    // no escape at all
         4 => (b' ', b'\\'),  // plain space, then trailing backslash
-        _ => (b'X', b'y'),    // an upper-case ASCII letter (smart case)
+        5 => (b'X', b'y'),    // an upper-case ASCII letter (smart case)
+        _ => (b'\\', b'X'),  // an upper-case letter right after a backslash that escapes nothing
     };
     let pick: u8 = kani::any();
     let (second, wide) = match LEAD {
